@@ -94,6 +94,20 @@ def task(W, payload):
         bump(out, "build_rejected")
         return out
     m = S.I.model
+    # flows added to a stratified model through name-and-strata selections: the multiset of flows (kind, name, source, destination)
+    import collections
+    def fkey(f):
+        def c(x):
+            return None if x is None else (x[0], tuple(sorted(tuple(kv) for kv in x[1])))
+        return (f["kind"], f["name"], c(f["src"]), c(f["dst"]))
+    pyd = S.I.apply({"op": "dump"}); lnd = S.L.send({"op": "dump"})
+    if pyd.get("ok") and lnd.get("ok"):
+        a = collections.Counter(fkey(f) for f in pyd["dump"]["flows"]); b = collections.Counter(fkey(f) for f in lnd["dump"]["flows"])
+        out["evals"] += 1
+        if a != b:
+            out["diffs"].append({"stage": "S1", "what": "flows created by add_*_flow(..., source_strata=, dest_strata=) on a stratified model", "prescribed": True,
+                                 "impl_only": [list(map(str, k)) for k in (a - b)][:6], "model_only": [list(map(str, k)) for k in (b - a)][:6],
+                                 "task": {"module": "c13", "fn": "task", "payload": payload}, "program": prog["build"]})
     comps = [(c.name, list(c.strata.items())) for c in m.compartments]
     h = prog_hash(prog["build"])
     flow_names = sorted(set(f.name for f in m.flows))
